@@ -336,3 +336,61 @@ _run_c09_prev = run
 def run(res, facts, tier):
     _run_c09_prev(res, facts, tier)
     r4_positional_marking(res, facts)
+
+
+def r5_backtracking(res, facts):
+    """'x/a//b': b matches if SOME ancestor a' of b passes 'a' and the steps to the left of 'a' match at a'.  stepPattern evaluates the steps right
+    to left by returning to its caller, so when the ancestor loop of 'a' breaks at the first ancestor that passes node test and predicates, the
+    steps to the left are tried for that ancestor only.  And the root step compensates by climbing itself when its right neighbour is followed by '//'."""
+    from ..mast import CFG, pp
+    r = res.rule('C09-R5', "stepPattern, '//' inside a path: the ancestor chosen for a step followed by '//' must depend on whether the steps to its left match there (no commitment to the "
+                 "first ancestor that passes the step's own test), and the root step must accept only the document node as the parent of its right neighbour", floor=2)
+    a = facts.asts('XPath::stepPattern')[0]
+    cfg = CFG(a)
+    loops = natural_loops(cfg)
+    labels = [n for n in cfg.nodes if n.ast is not None and n.ast.get('k') == 'CaseLabel']
+    reach = [set(cfg.reachable_avoiding([n], lambda m: False)) for n in labels]
+    common_nodes = set.intersection(*reach) if reach else set()
+
+    def region_of(name):
+        tgt = [n for n in labels if name in {strip_casts(l).get('n') for l in n.ast.get('labels', []) if l is not None}]
+        if not tgt:
+            raise AnalysisBroken('stepPattern: no case for %s' % name)
+        others = {n.id for n in labels if n is not tgt[0]}
+        return {i for i in cfg.reachable_avoiding([tgt[0]], lambda m: m.id in common_nodes or m.id in others) if i not in common_nodes}, tgt[0]
+
+    def climbs(body):
+        return any(cfg.nodes[i].ast is not None and cfg.nodes[i].kind == 'stmt' and 'getParentOfNode' in pp(cfg.nodes[i].ast) and pp(cfg.nodes[i].ast).startswith('(context =') for i in body)
+    # recursion structure: the call for the steps to the right comes before the switch, so the steps to the left are the callers
+    sw = [n for n in cfg.nodes if n.ast is not None and n.ast.get('k') == 'SwitchCond']
+    rec = [n for n in cfg.nodes if n.ast is not None and n.kind == 'stmt' and any((c.get('n') or '') == 'stepPattern' for c in calls(n.ast))]
+    right_first = bool(sw) and bool(rec) and all(sw[0].id in cfg.reachable_avoiding([n], lambda m: False) for n in rec)
+    region, lab = region_of('eMATCH_ANY_ANCESTOR')
+    for h, body in loops.items():
+        if h in region and climbs(body):
+            inner_calls = {c.get('n') for i in body if cfg.nodes[i].ast is not None for c in calls(cfg.nodes[i].ast)}
+            site = "stepPattern any-ancestor loop: commits to the first ancestor that passes the step's own test"
+            if right_first and 'stepPattern' not in inner_calls and 'locationPathPattern' not in inner_calls:
+                r.violation(site, "the loop leaves at the first ancestor passing node test and predicates; the steps to the left are matched afterwards, by the callers, for that ancestor only, "
+                            "so '/x/a//b' does not match b in <x><a><q><a><b/></a></q></a></x> although the expression selects it", common.file_line(a, cfg.nodes[h].ast))
+            else:
+                r.ok(site, 'the left remainder is consulted inside the loop')
+    region, lab = region_of('eFROM_ROOT')
+    found = False
+    for h, body in loops.items():
+        if h in region and climbs(body):
+            found = True
+            r.violation("stepPattern eFROM_ROOT: climbs to the root when the step to its right is followed by '//'",
+                        "the '//' after the right neighbour says nothing about how that neighbour relates to the root, yet the root step walks up from its parent until it finds the "
+                        "document: '/a//b' matches b in <x><a><y><b/></y></a></x> although the expression selects nothing", common.file_line(a, cfg.nodes[h].ast))
+    if not found:
+        r.ok('stepPattern eFROM_ROOT: accepts the document node only')
+    return r
+
+
+_run_c09_prev2 = run
+
+
+def run(res, facts, tier):
+    _run_c09_prev2(res, facts, tier)
+    r5_backtracking(res, facts)
